@@ -172,7 +172,15 @@ func buildScript(decls []string, axioms []string, o *Obl, forCVC5 bool, slice bo
 			if inclAx[i] {
 				continue
 			}
+			gdef := strings.Contains(a, ":named gdef")
 			for _, t := range identRe.FindAllString(a, -1) {
+				if gdef && needed[t] && strings.Contains(t, "!") {
+					// definition of an intermediate constant of a package-level initial value
+					inclAx[i] = true
+					addToks(a)
+					changed = true
+					break
+				}
 				if needed[t] && (strings.HasPrefix(t, "strlit_") || t == "str_lt" || strings.HasPrefix(t, "fn_") || strings.HasPrefix(t, "uf_") || strings.HasPrefix(t, "gbase_")) {
 					inclAx[i] = true
 					addToks(a)
